@@ -16,26 +16,31 @@ def monitor(s, t):
     if d is None:
         return "malformed or panicking run: %s" % t[:12]
     wait, fb = s[10], s[12]
-    now, prev_state, opened_at, seen = 0, 0, None, set()
+    now, prev_state, seen = 0, 0, set()
+    shield_from = None       # instant at which the breaker was observed to open; cleared only by an operator
     prev_inflight = 0
     for (e, o) in d:
         op, a, b = e
         r, started, st, sync, mst, tot, fl, su, sl, infl, mask = o
         if not (st == sync == mst):
             return "views disagree after %s: state=%d state_sync/is_open=%d metrics.state=%d" % (e, st, sync, mst)
-        shielded = prev_state == 1 and opened_at is not None and now - opened_at < wait
+        shielded = shield_from is not None and now - shield_from < wait
         if shielded:
             if started:
-                return "inner call started at t=%d while open since %d (wait %d)" % (now, opened_at, wait)
+                return "inner call started at t=%d although the breaker was observed open at %d (wait %d) and no operator closed it" % (now, shield_from, wait)
             if op == 1 and a not in seen and r != (4 if fb else 3):
-                return "new call at t=%d while open since %d got r=%d instead of %s" % (now, opened_at, r, "fallback" if fb else "OpenCircuit")
+                return "new call at t=%d, breaker observed open at %d (wait %d): got r=%d instead of %s" % (now, shield_from, wait, r, "fallback" if fb else "OpenCircuit")
             if infl > prev_inflight:
                 return "in-flight count grew while open"
-        if op in (1, 2):
+        if op in (1, 2, 8):
             seen.add(a)
         if op == 3:
             now += max(0, a)
+        if op in (6, 7):
+            shield_from = None                  # force_closed / reset: the operator lifted the shield
         if st == 1 and prev_state != 1:
-            opened_at = now
+            shield_from = now                   # observed to open (by rate, slow rate, failed trial or force_open)
+        if st != 1 and shield_from is not None and now - shield_from >= wait:
+            shield_from = None                  # wait elapsed: the breaker may go half-open / closed again
         prev_state, prev_inflight = st, infl
     return None
